@@ -25,6 +25,8 @@
      e_sum_load   sumfile.Load's parser        e_sum_bytes  sumfile.File.Bytes
      e_enabled    IsGeneratorEnabled on the merged tags (C06 plugs its model in here)
      e_order      the iteration order of the sync.Map of retained genfiles (any permutation)
+     e_rm_rank    the iteration order of the Go map generatedFiles when the stale files are removed (233-239): the
+                  remaining names are taken in ascending rank (any rank function = any order; a permutation by construction)
      e_fixed      false = the code before the repair of #26, true = after *)
 Require Import Gengo.Base.Bytes.
 
@@ -162,8 +164,17 @@ Record env := {
   e_sum_bytes : list (bytes * bytes) -> bytes;
   e_enabled : bytes -> pkginfo -> tyinfo -> bool;
   e_order : pkginfo -> list (bytes * bytes) -> list (bytes * bytes);
+  e_rm_rank : pkginfo -> bytes -> nat;
   e_fixed : bool
 }.
+
+(* `for _, fullFilename := range generatedFiles` ranges over a Go map: the names in ascending rank (stable) *)
+Fixpoint insert_rank (rk : bytes -> nat) (x : bytes) (l : list bytes) : list bytes :=
+  match l with
+  | [] => [x]
+  | y :: r => if Nat.leb (rk x) (rk y) then x :: y :: r else y :: insert_rank rk x r
+  end.
+Definition rank_sort (rk : bytes -> nat) (l : list bytes) : list bytes := fold_right (insert_rank rk) [] l.
 
 (* ---------- names ---------- *)
 
@@ -343,6 +354,9 @@ Fixpoint write_loop (a : args) (p : pkginfo) (gfs : list (bytes * bytes)) (rem :
 (* 174-179 *)
 Definition generated_files (a : args) (p : pkginfo) : list bytes := filter (prefixb (out_prefix a)) (pk_files p).
 
+(* 233-239: the order in which what is left of generatedFiles is removed *)
+Definition removal_order (p : pkginfo) (rem : list bytes) : list bytes := rank_sort (e_rm_rank E p) rem.
+
 (* pkgExecute for a package that is not cached *)
 Definition pkg_effects (a : args) (gens : list generator) (p : pkginfo) : list effect * trace * outcome :=
   let '(gfs, tr, out) := gen_phase gens p in
@@ -351,7 +365,7 @@ Definition pkg_effects (a : args) (gens : list generator) (p : pkginfo) : list e
       let '(effs, rem, e) := write_loop a p (e_order E p gfs) (generated_files a p) in
       match e with
       | Some x => (effs, tr, Failed x)
-      | None => (effs ++ map (fun f => ERemove (pk_dir p, f)) rem, tr, Done)
+      | None => (effs ++ map (fun f => ERemove (pk_dir p, f)) (removal_order p rem), tr, Done)
       end
   | bad => ([], tr, bad)
   end.
@@ -425,7 +439,7 @@ Definition pkg_execute_fs (a : args) (w : world) (gens : list generator) (prev :
         let '(s1, rem, e) := write_loop_fs a p (e_order E p gfs) (generated_files a p) s in
         match e with
         | Some x => (s1, tr, Failed x)
-        | None => (remove_all_fs (pk_dir p) rem s1, tr, Done)
+        | None => (remove_all_fs (pk_dir p) (removal_order p rem) s1, tr, Done)
         end
     | bad => (s, tr, bad)
     end
